@@ -170,6 +170,9 @@ class Harness:
     def canon(self, w):
         return self.cn(w.pl)
 
+    def refstate(self, w):
+        return tuple(w.decl)
+
     def outcome(self, w):
         return w.last
 
